@@ -1370,6 +1370,22 @@ class Interp:
                 if len(args) == 3:
                     return args[2]
                 raise ExcRaised(Ref('builtin:AttributeError'))
+            if isinstance(obj, Ref) and obj.ref.startswith('pkg:') and obj.ref.count(':') == 1 and obj.ref[4:] in self.a.repo.modules:
+                # getattr(module of the package, name): the module-level binding of that name, evaluated like module.name
+                mod_ = self.a.repo.modules[obj.ref[4:]]
+                if args[1] in mod_.funcs or args[1] in mod_.classes or args[1] in mod_.assigns or self.a.res.resolve(
+                        ast.Attribute(value=ast.Name(id='__m', ctx=ast.Load()), attr=args[1], ctx=ast.Load()), self.m) is not None:
+                    gref_ = f'{obj.ref}:{args[1]}'
+                    if args[1] in mod_.assigns and args[1] not in mod_.funcs and args[1] not in mod_.classes:
+                        return self._global(gref_, None)
+                    if args[1] in mod_.funcs or args[1] in mod_.classes:
+                        return Ref(gref_)
+                imp_ = self.a.res.resolve(ast.Name(id=args[1], ctx=ast.Load()), mod_)
+                if imp_ is not None:
+                    return Ref(imp_)
+                if len(args) == 3:
+                    return args[2]
+                raise ExcRaised(Ref('builtin:AttributeError'))
             if isinstance(obj, Ref) and obj.ref[:4] == 'ext:' and obj.ref[4:] in _FLAG_LIBS:
                 lib_ = _FLAG_LIBS[obj.ref[4:]]
                 if not hasattr(lib_, args[1]):
